@@ -387,6 +387,21 @@ def serveFrame (d : Dev) (h : Header) (pl : Bytes) : Dev × Outcome :=
     let (d', cip) := exec d dec.req
     (d', .reply (encodeReplyFrame h dec cip) cip.isSome)
 
+/-- `logix.process` with a size limit configured (`enip.main --size N`): a request whose encapsulated payload is
+longer than `N` bytes is refused *after* the CIP parser accepted it: encapsulation status 0x65, no payload, the
+session ends -- and it is not executed. -/
+def refusalFrame (h : Header) : Bytes := encodeHeader { h with len := 0, status := 0x65 }
+
+def serveFrameSized (limit : Option Nat) (d : Dev) (h : Header) (pl : Bytes) : Dev × Outcome :=
+  match limit with
+  | none => serveFrame d h pl
+  | some n =>
+    if n < pl.length then
+      match decodeFrame d h pl with
+      | none => (d, .other)
+      | some _ => (d, .reply (refusalFrame h) false)
+    else serveFrame d h pl
+
 /-- A connection: frames are taken off the stream one after the other until the stream holds no complete
 frame or the session ends.  `fate k` says whether the session goes on after the `k`-th frame when that frame
 is not a well-formed tag request (not modelled: another service, an error reply, or the connection is closed).
